@@ -100,7 +100,8 @@ class Report:
         self.units = []
 
     def rule(self, name, desc, floor=1):
-        floor = FLOORS.get(self.prop, {}).get(name, floor)
+        if not getattr(self, "no_floor_table", False):
+            floor = FLOORS.get(self.prop, {}).get(name, floor)
         if os.environ.get("VERIF_NOFLOOR"):
             floor = 0
         r = Rule(self, name, desc, floor)
